@@ -217,6 +217,30 @@ func c05GenPkg(r *Rand) *c05Pkg {
 				a.params = append(a.params, c05Param{c05ParamNames[pperm[q]], t})
 			}
 			itf.actions = append(itf.actions, a)
+			// the same method name with other parameters (the Go methods are told apart by a suffix, the calls by
+			// the signature of the parameters)
+			if a.kind == "fn" && r.Chance(20) {
+				for tries := 0; tries < 4; tries++ {
+					b := c05Action{kind: "fn", name: a.name}
+					if r.Chance(75) {
+						b.ret = c05GenType(r, 2, p.structs)
+					}
+					np := r.Intn(4)
+					for q := 0; q < np; q++ {
+						b.params = append(b.params, c05Param{c05ParamNames[pperm[(q+5)%len(pperm)]], c05GenType(r, 1, p.structs)})
+					}
+					same := false
+					for _, e := range itf.actions {
+						if e.kind == "fn" && e.name == b.name && c05ParamSig(e) == c05ParamSig(b) {
+							same = true
+						}
+					}
+					if !same {
+						itf.actions = append(itf.actions, b)
+						break
+					}
+				}
+			}
 		}
 		p.itfs = append(p.itfs, itf)
 	}
@@ -447,7 +471,7 @@ func c05Open(idlText []byte) (sess *c05Session, res string) {
 			if me.Return.Signature() != "v" {
 				g.ret = c05FromSig(me.Return.Signature())
 			}
-			sess.actions[itf.Name+"."+m.Name] = g
+			sess.actions[itf.Name+"."+m.Name+m.ParametersSignature] = g
 			return nil
 		}, func(s object.MetaSignal, signalName string) error {
 			si := itf.Signals[s.Uid]
@@ -616,6 +640,9 @@ func c05Action_(a []string) (*c05GoNames, string) {
 		return nil, ""
 	}
 	g := c05Cur.actions[a[0]+"."+a[1]]
+	if g == nil && len(a) > 3 { // a method: several may share the name, the parameters tell them apart
+		g = c05Cur.actions[a[0]+"."+a[1]+string(unhx(a[3]))]
+	}
 	return g, a[0]
 }
 
@@ -786,11 +813,26 @@ func c05Corpus() []*c05Pkg {
 		// type/basic used only through text: the import was missing
 		one("A", c05Action{kind: "fn", name: "run", ret: sc('s')}),
 		one("A", c05Action{kind: "fn", name: "run", params: []c05Param{par("a", vec(sc('m')))}}),
+		// one name, several parameter lists
+		{name: "gen", itfs: []c05Itf{{name: "A", actions: []c05Action{
+			{kind: "fn", name: "store", params: []c05Param{par("a", sc('i'))}, ret: sc('i')},
+			{kind: "fn", name: "store", params: []c05Param{par("a", sc('s'))}, ret: sc('s')},
+			{kind: "fn", name: "store", params: []c05Param{par("a", sc('i')), par("b", sc('s'))}},
+			{kind: "fn", name: "store", ret: vec(sc('d'))},
+		}}}},
 		// a returned value without content
 		one("A", c05Action{kind: "fn", name: "run", params: []c05Param{par("a", sc('C'))}, ret: tup()}),
 		// a list or a map of elements without content: the loop variable was unused
 		one("A", c05Action{kind: "sig", name: "tick", params: []c05Param{par("a", &sigT{kind: '{', elems: []*sigT{sc('c'), tup()}}), par("b", vec(tup()))}}),
 	}
+}
+
+func c05ParamSig(a c05Action) string {
+	var ts []*sigT
+	for _, q := range a.params {
+		ts = append(ts, q.t)
+	}
+	return c05Tuple(ts).String()
 }
 
 func c05Tuple(ts []*sigT) *sigT { return &sigT{kind: '(', elems: ts} }
@@ -857,6 +899,14 @@ func runC05(r *Rand, tier string, o *Out) {
 		for _, itf := range p.itfs {
 			for _, a := range itf.actions {
 				o.Count("action:" + a.kind)
+				if a.kind == "fn" {
+					for _, e := range itf.actions {
+						if e.kind == "fn" && e.name == a.name && c05ParamSig(e) != c05ParamSig(a) {
+							o.Count("action:overloaded")
+							break
+						}
+					}
+				}
 				var pts []*sigT
 				for _, q := range a.params {
 					pts = append(pts, q.t)
